@@ -61,3 +61,27 @@ theorem round_cons_translated (render : String → Except RErr String) (v : Stri
       rcases round render vs with e | ⟨vs', ch⟩ <;> rfl
 
 end Mockery.Config
+
+namespace Mockery.Config
+open Mockery.Generated
+
+/-- one iteration of the outer loop of `ParseTemplates` (`loop` with `fuel = cap - i`) follows the translated loop
+body: at the cap the run ends with the infinite-loop error, otherwise the flag is cleared and a round is made, and the
+loop goes on exactly when that round changed something -/
+theorem loop_step_translated (render : String → Except RErr String) (fuel : Nat) (vs : List String) :
+    (Merge.parseTemplatesRoundEffects (fuel == 0) = ["error: infinite loop"] ∧ fuel = 0 ∧
+        loop render fuel vs = .error .infiniteLoop) ∨
+    (Merge.parseTemplatesRoundEffects (fuel == 0) = ["changesMade := false", "range templateMap"] ∧
+      ∃ f, fuel = f + 1 ∧
+        loop render fuel vs = match round render vs with
+          | .error e => .error e
+          | .ok (vs', ch) => if ch then loop render f vs' else .ok vs') := by
+  cases fuel with
+  | zero => left; simp [Merge.parseTemplatesRoundEffects, loop]
+  | succ f =>
+    right
+    refine ⟨by simp [Merge.parseTemplatesRoundEffects], f, rfl, ?_⟩
+    simp only [loop]
+    rcases round render vs with e | ⟨vs', ch⟩ <;> rfl
+
+end Mockery.Config
